@@ -175,9 +175,15 @@ def gtf2db(gtf, db, complete_db=False, check_gtf=True):
     tmp_db = "%s.%s.tmp" % (db, uuid.uuid4().hex)
     gtf, unpacked = unpack_for_gffutils(gtf, db)
     try:
+        # a transcript record of a GTF file may be typed mRNA (check_gtf_duplicates counts it as a transcript record, GeneInfo
+        # reads 'transcript' and 'mRNA' children); gffutils keys only `transcript` records by transcript_id unless told
+        # otherwise: an mRNA record would get the id mRNA_<N> and its exons would be children of no transcript
+        id_spec = None
+        if gffutils.iterators.DataIterator(gtf).dialect['fmt'] == 'gtf':
+            id_spec = {'gene': 'gene_id', 'transcript': 'transcript_id', 'mRNA': 'transcript_id'}
         gffutils.create_db(gtf, tmp_db, force=True, keep_order=True, merge_strategy='error',
                            sort_attribute_values=True, disable_infer_transcripts=complete_db,
-                           disable_infer_genes=complete_db)
+                           disable_infer_genes=complete_db, id_spec=id_spec)
         os.replace(tmp_db, db)
     finally:
         if os.path.exists(tmp_db):
